@@ -35,19 +35,7 @@ mod __verif_c16 {
         ok
     }
 
-    // @harness tiers=quick,thorough timeout=900
-    // @encodes distributed::http_client::parse_response, distributed::http_client::HttpResponse::header, distributed::http_client::HttpResponse::is_success
-    // @bounds wire = "HTTP/1.1 200 OK CRLF Content-Length: <D> CRLF CRLF" + k body bytes; declared length D one symbolic decimal digit, k <= 3 symbolic, body bytes symbolic
-    // @oracle Ok(r) => r.status == 200, r.body is exactly the k bytes sent, and r.body.len() >= D (a body shorter than the declared Content-Length is an error, never a success)
-    // @out several headers, bodies > 3 bytes, the socket / timeout behaviour of request_inner (tokio)
-    #[kani::proof]
-    #[kani::unwind(8)]
-    #[kani::stub(alloc::fmt::format, no_format)]
-    fn body_never_shorter_than_content_length() {
-        let d: u8 = kani::any();
-        kani::assume(d <= 9);
-        let k: usize = kani::any();
-        kani::assume(k <= 3);
+    fn framing_case(d: u8, k: usize) {
         let body: [u8; 3] = kani::any();
         let mut buf = [0u8; W];
         let mut n = 0usize;
@@ -56,7 +44,7 @@ mod __verif_c16 {
         put(&mut buf, &mut n, b"\r\n\r\n");
         put(&mut buf, &mut n, &body[..k]);
         let r = parse_response(&buf[..n]);
-        kani::cover!(r.is_ok() && k == 2);
+        kani::cover!(r.is_ok());
         if let Ok(r) = &r {
             assert!(r.status == 200, "C16.status_is_the_one_sent");
             assert!(r.is_success(), "C16.2xx_is_success");
@@ -64,6 +52,56 @@ mod __verif_c16 {
             assert!(r.body.len() >= d as usize, "C16.body_ge_content_length");
         }
         std::mem::forget(r);
+    }
+
+    // @harness tiers=quick,thorough timeout=900
+    // @encodes distributed::http_client::parse_response, distributed::http_client::HttpResponse::is_success
+    // @bounds wire = "HTTP/1.1 200 OK CRLF Content-Length: <D> CRLF CRLF" + k symbolic body bytes, complete bodies: (D,k) = (0,0), (1,1), (3,3) iterated concretely; body bytes symbolic (CR, LF, NUL, anything)
+    // @oracle Ok with status 200, success flag, and the body exactly the k bytes that followed the header block
+    // @out several headers, bodies > 3 bytes, the socket / timeout behaviour of request_inner (tokio)
+    #[kani::proof]
+    #[kani::unwind(48)]
+    #[kani::stub(alloc::fmt::format, no_format)]
+    fn complete_body_is_returned_exactly() {
+        framing_case(0, 0);
+        framing_case(1, 1);
+        framing_case(3, 3);
+    }
+
+    // @harness tiers=quick,thorough timeout=900 finding=C16-content-length-ignored
+    // @encodes distributed::http_client::parse_response
+    // @bounds as complete_body_is_returned_exactly but the peer closes early: (D,k) = (2,1), (5,3), (3,0)
+    // @oracle a body shorter than the declared Content-Length is an error, never a success
+    #[kani::proof]
+    #[kani::unwind(48)]
+    #[kani::stub(alloc::fmt::format, no_format)]
+    fn body_never_shorter_than_content_length() {
+        framing_case(2, 1);
+        framing_case(5, 3);
+        framing_case(3, 0);
+    }
+
+    // @harness tiers=quick,thorough timeout=900
+    // @encodes distributed::http_client::parse_response
+    // @bounds the well-formed message "HTTP/1.1 200 OK CRLF Content-Length: 2 CRLF CRLF ok" cut at EVERY byte offset inside the head (0..=37, iterated concretely)
+    // @oracle a response cut anywhere before the end of its header block is an error (never a success with an empty body)
+    #[kani::proof]
+    #[kani::unwind(48)]
+    #[kani::stub(alloc::fmt::format, no_format)]
+    fn truncated_head_is_an_error() {
+        let msg = b"HTTP/1.1 200 OK\r\nContent-Length: 2\r\n\r\nok";
+        let mut cut = 0usize;
+        let mut errs = 0usize;
+        while cut < 38 {
+            let r = parse_response(&msg[..cut]);
+            if r.is_err() {
+                errs += 1;
+            }
+            assert!(r.is_err(), "C16.truncated_head_rejected");
+            std::mem::forget(r);
+            cut += 1;
+        }
+        kani::cover!(errs == 38);
     }
 
     // @playback
